@@ -81,7 +81,7 @@ func c05Render(v reflect.Value, plan c05Plan) (*av.V, interface{}) {
 		if pos < len(plan.extras) {
 			for _, k := range plan.extras[pos] {
 				x++
-				obj.Fields = append(obj.Fields, fmt.Sprintf([]string{"zzUnknown%d", "größe%d", "未知%d", "𝔲nknown%d", "this$%d", "val$x%d"}[x%6], x))
+				obj.Fields = append(obj.Fields, fmt.Sprintf([]string{"zzUnknown%d", "this$%d", "größe%d", "未知%d", "val$x%d", "𝔲nknown%d"}[(x+k)%6], x))
 				obj.Elems = append(obj.Elems, c05Extra(k))
 			}
 		}
